@@ -1,0 +1,12 @@
+//go:build verif
+
+package cmd
+
+// VerifExecute runs the root command with the given arguments and returns its error instead of exiting the process,
+// so that the verification harness can drive the CLI's flag handling.
+func VerifExecute(args []string) error {
+	rootCmd.SetArgs(args)
+	rootCmd.SilenceUsage = true
+	rootCmd.SilenceErrors = true
+	return rootCmd.Execute()
+}
